@@ -129,6 +129,12 @@ CLAIMS = {
         "note": "Decides absence of in-place writes through references reachable from arguments, which is a necessary condition of the property (any such write is observable by the caller or by later computations sharing the object). Does not decide mutation through module-level state, through closures over non-parameters, through objects stored by reference and written later by another call (e.g. a metadata dict handed to Integral and mutated by its creator), nor pickling/equality of the input before/after. " + TB,
         "technique": "interprocedural who-may-write / ownership analysis on the AST (origin lattice fresh/input/other, flow-sensitive, summary fixpoint over the call graph)",
     },
+    "C05": {
+        "level": "other",
+        "text": "The constructors of the expression language are interpreted from source (__new__/__init__/_simplify_indexed of Sum, Product, Division, Power, Abs, Conj, Real, Imag, Indexed, IndexSum, ComponentTensor, ListTensor; exproperators._getitem with create_slice_indices, _mult, _add/_sub/_div/_pow/_neg; as_tensor/as_vector/as_matrix) on structured symbolic operands: all pairs of a scalar universe (literals 0, 1, 2, -1, 0.5, zeros with free indices, symbols with disjoint / shared free indices), 15 tensor-valued node kinds x fixed / free / mixed / repeated / already-free / inner-bound index tuples with slices and Ellipsis, every row-wise and column-wise way of rebuilding a rank 2..4 tensor as a list tensor (free / fixed trailing indices, every partial and permuted binding, reversed and incomplete row sets), products of all rank combinations. For each request the shape, free indices, index dimensions and value (exact polynomial identity over symbolic components) of what was built must equal the reference meaning of the requested operation, ill-formed requests must be rejected, and every node built from source must declare the shape and indices of its meaning.",
+        "note": "Finite operand universe (dims 2,3; ranks <= 4). Canonical operand ordering is decided by C29; math functions, conditionals and compound tensor operators are covered by C24 / C06 / C23 for evaluation and lowering, their constructors' literal folding is not lifted here. " + TB,
+        "technique": "abstract interpretation of constructor code on structured symbolic operands (reference meaning attached to every node built) + exact comparison with the reference semantics of index notation",
+    },
     "C29": {
         "level": "other",
         "text": "cmp_expr and the terminal comparators (dispatch table _terminal_cmps built by evaluating sorting.py's own module-level assignments) are lifted and evaluated on all ordered pairs of a finite universe of abstract expressions (every terminal kind with a dedicated comparator, repr-ordered terminals, multi-indices of different lengths and fixed/free patterns incl. the prefix triple, counters across a digit boundary, operators with shared and with duplicated equal sub-expressions, nodes with different operand counts, arguments with and without parts): antisymmetry on all pairs, transitivity on all triples, ties only between expressions equal up to Index/Label numbers, and an unchanged sign matrix under renumbering of indices and labels (no comparator reads those counts). Sum, Product and Inner __new__ are lifted on both operand orders of every distinguishable pair and must build the same node.",
